@@ -16,6 +16,7 @@ import (
 	"sync"
 	"time"
 
+	gometrics "github.com/hashicorp/go-metrics/compat"
 	"github.com/hashicorp/raft"
 	wal "github.com/hashicorp/raft-wal"
 	"github.com/hashicorp/raft-wal/metrics"
@@ -106,6 +107,15 @@ func c20Sequence(c *evid.Ctx, seed int64, declared map[string]bool, allSites *re
 		atomicC = metrics.NewAtomicCollector(wal.MetricDefinitions)
 	}
 	col := &teeCollector{rec: rec, all: allSites, atomic: atomicC, c: c}
+	if rng.Intn(4) == 0 {
+		// the other bundled collector, on an in-memory go-metrics sink
+		sink := gometrics.NewInmemSink(time.Second, 10*time.Second)
+		if gm, err := gometrics.New(&gometrics.Config{FilterDefault: true}, sink); err == nil {
+			col.gom = metrics.NewGoMetricsCollector([]string{"wal"}, nil, gm)
+			defer gm.Shutdown()
+			c.Count("gometrics_collector_runs", 1)
+		}
+	}
 	open := func() (*wal.WAL, error) { return drv.OpenSim(disk, drv.Cfg{SegSize: seg, Metrics: col}) }
 	w, err := open()
 	if err != nil {
@@ -263,7 +273,18 @@ func zeroClass(v uint64) string {
 type teeCollector struct {
 	rec, all *recCollector
 	atomic   *metrics.AtomicCollector
+	gom      *metrics.GoMetricsCollector
 	c        *evid.Ctx
+}
+
+// guard runs f and reports a panic of a bundled collector.
+func (t *teeCollector) guard(which, name string, f func()) {
+	defer func() {
+		if r := recover(); r != nil {
+			t.c.Violation("C20:collector-panic:"+which+":"+name, fmt.Sprintf("bundled %s panicked on metric %q: %v", which, name, r), nil)
+		}
+	}()
+	f()
 }
 
 func (t *teeCollector) IncrementCounter(name string, d uint64) {
@@ -284,6 +305,9 @@ func (t *teeCollector) IncrementCounter(name string, d uint64) {
 			t.atomic.IncrementCounter(name, d)
 		}()
 	}
+	if t.gom != nil {
+		t.guard("GoMetricsCollector", name, func() { t.gom.IncrementCounter(name, d) })
+	}
 }
 func (t *teeCollector) SetGauge(name string, v uint64) {
 	t.rec.mu.Lock()
@@ -302,6 +326,9 @@ func (t *teeCollector) SetGauge(name string, v uint64) {
 			}()
 			t.atomic.SetGauge(name, v)
 		}()
+	}
+	if t.gom != nil {
+		t.guard("GoMetricsCollector", name, func() { t.gom.SetGauge(name, v) })
 	}
 }
 
